@@ -56,7 +56,8 @@ def plan(tier, seed, kf_ids, prefix="c12", budget=False):
     # cos adds pi/2 before reducing: operands within 2 of the type's maximum overflow that addition (outside C12's |x|<=200)
     jobs.append(T.trig(prefix, "cos", a, T.FULL, "all", UW(a, 30), B(a), 200 if not budget else 254))
     fam = "+-(2^p +- t), max - t, min + t; t < 256, every binade p"
-    jobs.append(T.total1(prefix, "log2", a, a, T.family(a), "family", UW(a, 36), B(a), timeout=2400, bounds=fam))
+    if not budget:
+        jobs.append(T.total1(prefix, "log2", a, a, T.family(a), "family", UW(a, 36), B(a), timeout=2400, bounds=fam))
     jobs.append(T.total1(prefix, "log2", a, a, T.FULL, "all", UW(a, 36), B(a), timeout=2400, bounds="all 2^32 operands"))
     jobs[-1].prio = 9    # 6-7 min: decided last, when the run budget allows
     jobs.append(T.total1(prefix, "sqrt", a, a, T.family(a), "family", UW(a, 36), B(a), timeout=2400, bounds=fam))
